@@ -133,13 +133,23 @@ func doLocalSymbolize(prof *profile.Profile, fast, force bool, obj plugin.ObjToo
 		}
 	}
 
+	// New functions get ids that are not in use yet; the ids already in the
+	// profile need not be 1..len(prof.Function).
+	usedIDs := make(map[uint64]bool, len(prof.Function))
+	for _, f := range prof.Function {
+		usedIDs[f.ID] = true
+	}
+	var lastID uint64
 	functions := map[profile.Function]*profile.Function{}
 	addFunction := func(f *profile.Function) *profile.Function {
 		if fp := functions[*f]; fp != nil {
 			return fp
 		}
 		functions[*f] = f
-		f.ID = uint64(len(prof.Function)) + 1
+		for lastID++; lastID == 0 || usedIDs[lastID]; lastID++ {
+		}
+		usedIDs[lastID] = true
+		f.ID = lastID
 		prof.Function = append(prof.Function, f)
 		return f
 	}
